@@ -277,6 +277,39 @@ func (c *child) kill() {
 
 var reSan = regexp.MustCompile(`[^A-Za-z0-9 .,:;/_=()\[\]<>+*-]`)
 
+// frameOf returns "pkg.Func at dir/file.go:LINE" for the first stack frame at or after line i that
+// lies in the repo under test.
+func frameOf(lines []string, i int) string {
+	for ; i+1 < len(lines); i++ {
+		l := lines[i]
+		if !strings.HasPrefix(l, "github.com/brewlin/net-protocol/") || !strings.HasPrefix(lines[i+1], "\t") {
+			continue
+		}
+		fn := strings.TrimPrefix(l, "github.com/brewlin/net-protocol/")
+		if j := strings.LastIndex(fn, "("); j > 0 {
+			fn = fn[:j]
+		}
+		loc := strings.TrimSpace(lines[i+1])
+		if k := strings.Index(loc, " "); k > 0 {
+			loc = loc[:k]
+		}
+		parts := strings.Split(loc, "/")
+		if len(parts) > 3 {
+			loc = strings.Join(parts[len(parts)-3:], "/")
+		}
+		return fn + " at " + loc
+	}
+	return ""
+}
+
+func clip(s string) string {
+	s = reSan.ReplaceAllString(s, "?")
+	if len(s) > 300 {
+		s = s[:300]
+	}
+	return s
+}
+
 // exitInfo: (exit code, one-line description of why the child died) once it has exited.
 func (c *child) exitInfo() (int, string) {
 	code := -1
@@ -286,58 +319,56 @@ func (c *child) exitInfo() (int, string) {
 		code = 0
 	}
 	txt := c.stderr.String()
-	var first, where string
 	lines := strings.Split(txt, "\n")
+	first := ""
+	at := 0
 	for i, l := range lines {
-		if first == "" && (strings.HasPrefix(l, "panic:") || strings.HasPrefix(l, "fatal error:")) {
-			first = strings.TrimSpace(l)
-			// a runtime error continues on the next line for wrapped errors; keep it short
-			_ = i
-		}
-		if where == "" && strings.Contains(l, "net-protocol/") && strings.HasSuffix(strings.TrimSpace(lines[min(i+1, len(lines)-1)]), "") {
-			// "github.com/brewlin/net-protocol/pkg.Func(...)" is followed by "\t/path/file.go:LINE +0x.."
-			if i+1 < len(lines) && strings.Contains(lines[i+1], ".go:") {
-				fn := l
-				if k := strings.Index(fn, "("); k > 0 && !strings.HasPrefix(fn, "(") {
-					// keep "pkg.(*T).Method"
-					if j := strings.LastIndex(fn, "("); j > 0 {
-						fn = fn[:j]
-					}
-				}
-				loc := strings.TrimSpace(lines[i+1])
-				if k := strings.Index(loc, " "); k > 0 {
-					loc = loc[:k]
-				}
-				if k := strings.Index(loc, "net-protocol/"); k >= 0 {
-					loc = loc[k+len("net-protocol/"):]
-				} else if k := strings.LastIndex(loc, "/"); k >= 0 {
-					// scratch worktrees: keep the path below the repo root as best we can
-					parts := strings.Split(loc, "/")
-					if len(parts) > 3 {
-						loc = strings.Join(parts[len(parts)-3:], "/")
-					}
-				}
-				where = strings.TrimPrefix(strings.TrimSpace(fn), "github.com/brewlin/net-protocol/") + " at " + loc
-			}
+		if strings.HasPrefix(l, "panic:") || strings.HasPrefix(l, "fatal error:") {
+			first, at = strings.TrimSpace(l), i
+			break
 		}
 	}
 	if first == "" {
-		first = strings.TrimSpace(strings.SplitN(txt, "\n", 2)[0])
+		first = strings.TrimSpace(lines[0])
 	}
-	s := first
-	if where != "" {
-		s += " in " + where
+	if w := frameOf(lines, at); w != "" {
+		first += " in " + w
 	}
-	s = reSan.ReplaceAllString(s, "?")
-	if len(s) > 240 {
-		s = s[:240]
-	}
-	return code, s
+	return code, clip(first)
 }
 
-func min(a, b int) int {
-	if a < b {
-		return a
+// stacks asks a child that is alive but not serving for its goroutine dump (SIGQUIT) and
+// summarises where goroutines of the stack under test are blocked on a lock.
+func (c *child) stacks() string {
+	if !c.alive() || c.cmd.Process == nil {
+		return ""
 	}
-	return b
+	c.cmd.Process.Signal(syscall.SIGQUIT)
+	select {
+	case <-c.done:
+	case <-time.After(3 * time.Second):
+		return ""
+	}
+	lines := strings.Split(c.stderr.String(), "\n")
+	var out []string
+	seen := map[string]bool{}
+	for i, l := range lines {
+		if !strings.HasPrefix(l, "goroutine ") {
+			continue
+		}
+		if !(strings.Contains(l, "semacquire") || strings.Contains(l, "sync.Mutex") || strings.Contains(l, "sync.RWMutex")) {
+			continue
+		}
+		if w := frameOf(lines, i); w != "" && !seen[w] {
+			seen[w] = true
+			out = append(out, w)
+		}
+		if len(out) >= 3 {
+			break
+		}
+	}
+	if len(out) == 0 {
+		return ""
+	}
+	return "goroutines blocked on a lock in " + strings.Join(out, "; ")
 }
